@@ -82,6 +82,15 @@ func (e *Error) AddContext(c Cont, depth int) *Error {
 			if _, ok := c.(*LuaCont); ok {
 				break
 			}
+			if term, ok := c.(*Termination); ok {
+				// A termination stands for the continuation that made the
+				// call (e.g. a Lua function executing an operator implemented
+				// by a metamethod): its Parent() is already that
+				// continuation's parent, so do not skip it.
+				if _, ok := term.parent.(*LuaCont); ok {
+					break
+				}
+			}
 			c = c.Parent()
 		}
 	}
